@@ -212,3 +212,17 @@ End Indep.
 (** the list removeIllegal computes, for any tables and any redundant fields *)
 Theorem removeIllegal_twin : forall zk p ml, snd (removeIllegal zk p ml) = snd (removeIllegal zkDummy (twin p) ml).
 Proof. intros zk p ml. apply E_removeIllegal. apply E_twin. Qed.
+
+(** C01_legal_exact for any Zobrist tables and any values of the redundant fields *)
+From Texel Require Import Chess.PseudoProofs Chess.ShortcutProofs Chess.NoDupProofs.
+Theorem legal_exact_any : forall zk p, WF p ->
+  let r := removeIllegal zk p (pseudoLegalMoves p) in
+  (forall m, In m (snd r) <-> legal_spec (abs p) m) /\
+  snd r = filter (legal_specb (abs p)) (pseudoLegalMoves p) /\ NoDup (snd r).
+Proof.
+  intros zk p H. cbv zeta. rewrite removeIllegal_twin. set (p' := twin p).
+  assert (W' : WF p') by exact H. pose proof (twin_consistent p H) as C'. fold p' in C'.
+  rewrite <- (twin_pseudo_eq p). fold p'.
+  destruct (legal_exact zkDummy p' zkDummy_empty W' C') as (A & B & _). change (abs p') with (abs p) in A, B.
+  split; [exact A|]. split; [exact B|]. rewrite B. apply NoDup_filter. apply nodup_all. exact W'.
+Qed.
